@@ -87,6 +87,10 @@ def search_cases(rng, tier):
 
 
 def oracle(case, obs):
+    return stream_oracle(case, obs) or ("harness_exception" not in obs and I.storage_violation(obs)) or None
+
+
+def stream_oracle(case, obs):
     if "harness_exception" in obs:
         return "harness exception: " + obs["harness_exception"] + obs.get("tb", "")
     msg = I.history_violation(case, obs, None, "stream (incl. set_epoch / iter calls)")
